@@ -127,6 +127,8 @@ CHECKS = {
                mc(1, [1, 5], [], ['add_cell'], Modes='ModesDefault', BUSets='BUTwo', MaxList=4),
                mc(1, [3, 9, 10], [], ['add_cell'], Modes='ModesDefault', BUSets='BUOn', MaxList=3),
                mc(1, [13], [], ['add_cell'], Modes='ModesDefault', BUSets='BUOn', MaxList=4),
+               # degenerate faces: a single halfface can be a closed surface (2-gon on both halfedges of one edge)
+               mc(1, [11], [], ['add_cell', 'add_face'], Modes='ModesDefault', BUSets='BUTwo', MaxList=3),
                mc(2, [2, 6], DEL, ['add_edge', 'add_cell_closed', 'add_face_v'], Modes='ModesTwo', BUSets='BUTwo', MaxList=3)],
         thorough=[mc(2, [1, 6], DEL, ['add_edge', 'add_face'], Modes='ModesTwo', BUSets='BUTwo', MaxList=3),
                   mc(2, [1, 5, 2], ['delete_cell'], ['add_cell'], Modes='ModesDefault', BUSets='BUTwo', MaxList=4),
